@@ -11,11 +11,12 @@ import Nq.Lemmas.RewriteVerp
 import Nq.Lemmas.RewriteCase
 import Nq.Lemmas.RewriteTodo
 import Nq.Lemmas.RewriteCtl
+import Nq.Lemmas.RewriteDaemon
 
 namespace Nq.Props.C10
 open Nq Nq.Rewrite Nq.Route
 open Nq.Lemmas.RewriteMap Nq.Lemmas.RewriteSpec Nq.Lemmas.RewriteVerp Nq.Lemmas.RewriteCase Nq.Lemmas.RewriteTodo
-open Nq.Lemmas.RewriteCtl
+open Nq.Lemmas.RewriteCtl Nq.Lemmas.RewriteDaemon
 
 /-! ### the routing rule -/
 
@@ -40,6 +41,12 @@ exactly the entry whose key equals the looked-up key ignoring ASCII case — for
 theorem C10_constmap (s : Bytes) (flagcolon : Bool) (k : Bytes) :
     (cmInit s flagcolon).lookup k = mapLookup (parseEntries s flagcolon) k :=
   lookup_cmInit s flagcolon k
+
+/-- membership — all that the `locals` and `percenthack` lookups use — needs no hypothesis at all:
+`constmap()` finds a key iff it is listed (ignoring ASCII case), repeated keys or not -/
+theorem C10_constmap_listed (s : Bytes) (flagcolon : Bool) (k : Bytes) :
+    ((cmInit s flagcolon).lookup k).isSome = listed (parseEntries s flagcolon) k := by
+  rw [C10_constmap, isSome_mapLookup]
 
 /-- …so `rewrite()` over the three hash tables is `rewrite()` over the parsed control files. -/
 theorem C10_constmap_rewrite (raw : RawCfg) (r : Bytes) : rewriteHT raw r = rewrite raw.cfg r := by
@@ -133,9 +140,27 @@ theorem C10_partition (c : Cfg) (hdr rs : List Bytes) (tail : Bytes)
   have : List.map (rewriteWith c.lookups c.env) rs = routeAll c rs := rfl
   simp [this]
 
-/-- every input recipient is routed exactly once, in order: the routed list has the recipients'
-length and its i-th element is `rewrite` of the i-th recipient; the two channel lists are an
-order-preserving split of it (their interleaving is the input order). -/
+/-- **`todo_do` on every byte string**: for every configuration without a repeated virtualdomains
+key and *every* `todo` file (records in any order, any bytes), the record loop produces exactly the
+documented result `specTodo`: it fails (`goto fail`, the message stays in `todo/`) iff some
+NUL-terminated record is empty or has a type other than `T u p F`; otherwise `info` gets the `F`
+records and `local`/`remote` get, in input order, the `rwline` of exactly the recipients the
+documented rules `routeSpec` send there. Generalises `C10_partition` (no shape hypothesis) and is the
+predicate the real-daemon oracle evaluates. -/
+theorem C10_todo (c : Cfg) (todo : Bytes) (h : noDupKeys c.vdoms = true) :
+    todoDo c.lookups c.env todo = specTodo c todo :=
+  todoDo_eq_specTodo_of c (fun r => C10_spec c r h) todo
+
+/-- the channel files the oracle expects (`specChan`, built from `routeSpec`) are the right-hand side
+of `C10_partition` -/
+theorem C10_specChan (c : Cfg) (h : noDupKeys c.vdoms = true) (ch : Chan) (rs : List Bytes) :
+    specChan c ch rs = chanFile ch (routeAll c rs) :=
+  specChan_eq_of c (fun r => C10_spec c r h) ch rs
+
+/-- the two channel lists are an order-preserving split of the routed list: their interleaving is
+the input order. (The first two conjuncts — same length, i-th element is `rewrite` of the i-th
+recipient — merely unfold `routeAll := rs.map (rewrite c)`; that the *code* drops and duplicates
+nothing is `C10_partition`/`C10_todo`, where `routeAll` is the right-hand side.) -/
 theorem C10_interleave (c : Cfg) (rs : List Bytes) :
     (routeAll c rs).length = rs.length ∧
     (∀ i (h : i < rs.length), (routeAll c rs)[i]? = some (rewrite c rs[i])) ∧
@@ -146,9 +171,28 @@ theorem C10_interleave (c : Cfg) (rs : List Bytes) :
     unfold chanRecs
     simpa only [chan_not_loc] using this
 
-/-- records are never merged or split: a channel file parses back (at its NULs) into exactly one
-record per routed recipient, provided tags and addresses are NUL-free -/
-theorem C10_records (ch : Chan) (routed : List Routed)
+/-- **`rewrite()` introduces no NUL**: for a NUL-free recipient, NUL-free `envnoathost` and NUL-free
+virtualdomains prepends, the tag and the rewritten address are NUL-free. -/
+theorem C10_rewrite_nulfree (c : Cfg) (r : Bytes) (hr : NUL ∉ r) (he : NUL ∉ c.env)
+    (hv : ∀ e ∈ c.vdoms, NUL ∉ e.val) : NUL ∉ (rewrite c r).tag ∧ NUL ∉ (rewrite c r).addr :=
+  rewrite_nulfree c r hr he hv
+
+/-- …and the configuration `getcontrols()` builds meets these hypotheses: the prepends
+`constmap_init` extracts are NUL-free for **every** buffer, `envnoathost` is NUL-free when
+`control/envnoathost` and `control/me` are; neither is changed by a HUP reread
+(`reget` replaces `vdoms` by another parsed buffer and keeps `env`). -/
+theorem C10_cfg_nulfree (f : Files) (raw : RawCfg) (hme : ∀ s, f.me = some s → NUL ∉ s)
+    (henv : ∀ s, f.env = some s → NUL ∉ s) (hg : getcontrols f = some raw) (me : Option Bytes) (f' : Files) :
+    NUL ∉ raw.cfg.env ∧ (∀ e ∈ raw.cfg.vdoms, NUL ∉ e.val) ∧
+    NUL ∉ (reget me raw f').cfg.env ∧ (∀ e ∈ (reget me raw f').cfg.vdoms, NUL ∉ e.val) := by
+  have he := getcontrols_env_nulfree f raw hme henv hg
+  refine ⟨he, parseEntries_val_nulfree _ _, ?_, parseEntries_val_nulfree _ _⟩
+  show NUL ∉ (reget me raw f').env
+  rw [reget_env]; exact he
+
+/-- records are never merged or split, generic form: a channel file parses back (at its NULs) into
+exactly one record per routed recipient, provided tags and addresses are NUL-free -/
+theorem C10_records_gen (ch : Chan) (routed : List Routed)
     (h : ∀ r ∈ routed, NUL ∉ r.tag ∧ NUL ∉ r.addr) :
     chunks (chanFile ch routed) =
       (chanRecs ch routed).map (fun r => TEE :: (if r.tag = [] then r.addr else r.tag ++ DASH :: r.addr)) := by
@@ -168,6 +212,20 @@ theorem C10_records (ch : Chan) (routed : List Routed)
   · exact h2
   · simp only [List.mem_append, List.mem_cons, not_or]
     exact ⟨h1, by decide, h2⟩
+
+/-- **records are never merged or split**: the channel file `todo_do` writes for a list of NUL-free
+recipients parses back (at its NULs) into exactly one record per recipient routed to that channel, in
+order — under NUL-free `envnoathost` and prepends (which `C10_cfg_nulfree` gives for NUL-free
+`me`/`envnoathost` files). Replaces the earlier statement, whose NUL-freeness hypothesis was on the
+*routed* records and followed from nothing proved. -/
+theorem C10_records (c : Cfg) (ch : Chan) (rs : List Bytes) (hr : ∀ r ∈ rs, NUL ∉ r) (he : NUL ∉ c.env)
+    (hv : ∀ e ∈ c.vdoms, NUL ∉ e.val) :
+    chunks (chanFile ch (routeAll c rs)) =
+      (chanRecs ch (routeAll c rs)).map (fun r => TEE :: (if r.tag = [] then r.addr else r.tag ++ DASH :: r.addr)) := by
+  apply C10_records_gen
+  intro x hx
+  obtain ⟨r, hrm, rfl⟩ := List.mem_map.1 hx
+  exact rewrite_nulfree c r (hr r hrm) he hv
 
 /-! ### VERP -/
 
@@ -190,25 +248,65 @@ theorem C10_verp_identity (sender recip : Bytes) :
   · rw [C10_verp, hb, verpSpec_nohost _ _ hn]
   · rw [C10_verp, verpSpec_noat _ _ h]
 
-/-! ### HUP -/
+/-! ### HUP
 
-/-- **after a HUP** the next preprocessed message (and every later one) is routed with `locals` and
-`virtualdomains` as they are on disk at the reread; `percenthack` and `envnoathost` stay as read at
-start-up (as documented). -/
-theorem C10_hup (d d1 d2 : Daemon) (todo : Bytes) (out : Option TodoOut)
-    (h1 : accept d .hup = some d1) (h2 : accept d1 (.msg todo out) = some d2) :
-    d2.cfg = reget d.me d.cfg d.files ∧ d2.flagread = false ∧
-    out = todoDo d2.cfg.htLookups d2.cfg.env todo ∧
+`accept`/`acceptAll` (Nq/Rewrite.lean) is a monitor of an observed trace of the daemon: control files
+edited / SIGHUP delivered (`sighup()` sets the flag) / the main loop passes its top (`if
+(flagreadasap) { flagreadasap = 0; reread(); }`) / `todo_do` preprocesses a message with given
+outputs. The guard of `msg` ("the outputs are `todoDo` under the configuration in force") is tied to
+the code by replaying the real daemon's traces through `acceptAll` (driver, DISAGREE channel). The
+theorems below are consequences *over all traces the monitor accepts*: which events can change the
+configuration (`C10_fixed`, `C10_nohup`, `C10_hup`, `C10_hup_later`, `C10_hup_race`: induction over the
+trace) and that every accepted trace satisfies the documented predicate `specTrace` (`C10_trace`:
+simulation invariant `Sim`, chaining `C10_controls`, `C10_hup_controls`, `C10_constmap`, `C10_spec`,
+`C10_todo`), which is what the driver's S-oracle evaluates on the real daemon. -/
+
+/-- **a HUP is served when the loop next passes its top** (at once when the signal interrupts
+`select()`): the reread installs `locals`/`virtualdomains` as they are on disk at that moment and
+clears the flag; `percenthack` and `envnoathost` stay as read at start-up (as documented). -/
+theorem C10_hup (d d1 d2 : Daemon) (h1 : accept d .hup = some d1) (h2 : accept d1 .top = some d2) :
+    d2.cfg = reget d.me d.cfg d.files ∧ d2.flagread = false ∧ d2.files = d.files ∧ d2.me = d.me ∧
     d2.cfg.ph = d.cfg.ph ∧ d2.cfg.env = d.cfg.env := by
   simp only [accept, Option.some.injEq] at h1
   subst h1
-  simp only [accept, Daemon.top, if_true] at h2
+  simp only [accept, Daemon.top, if_true, Option.some.injEq] at h2
+  subst h2
+  exact ⟨rfl, rfl, rfl, rfl, reget_ph _ _ _, reget_env _ _ _⟩
+
+/-- **…and every later message** — after any number of further loop rounds and **whatever is done to
+the control files afterwards** — is preprocessed under exactly that reread configuration, until the
+next SIGHUP: for every SIGHUP-free continuation `es` of the trace, all its `msg` events carry the
+outputs of `todo_do` under `reget` of the files that were on disk when the HUP was served, and the
+configuration at the end is still that one. (This replaces the earlier `C10_hup`, which only
+restated the acceptor's guard for the single next message and whose model reread lazily at that
+message — with the files as edited in between, unlike the daemon.) -/
+theorem C10_hup_later (d d1 d2 dn : Daemon) (es : List Ev)
+    (h1 : accept d .hup = some d1) (h2 : accept d1 .top = some d2)
+    (hno : es.all (fun e => !isHup e) = true) (h3 : acceptAll d2 es = some dn) :
+    dn.cfg = reget d.me d.cfg d.files ∧
+    ∀ todo out, Ev.msg todo out ∈ es →
+      out = todoDo (reget d.me d.cfg d.files).htLookups (reget d.me d.cfg d.files).env todo := by
+  obtain ⟨hc, hf, _⟩ := C10_hup d d1 d2 h1 h2
+  obtain ⟨a, _, b⟩ := acceptAll_stable es d2 dn hf hno h3
+  rw [hc] at a b
+  exact ⟨a, b⟩
+
+/-- Complement (the select race of this loop, code behaviour): a SIGHUP that is delivered after the
+flag test — so that no loop top lies between it and the next `todo_do` — does **not** affect that
+message: it is preprocessed under the old configuration and the reread stays pending until the loop
+passes its top again. (The correspondence runs deliver SIGHUP only while the daemon is blocked in
+`select()`, where `EINTR` leads straight to the loop top.) -/
+theorem C10_hup_race (d d1 d2 : Daemon) (todo : Bytes) (out : Option TodoOut)
+    (h1 : accept d .hup = some d1) (h2 : accept d1 (.msg todo out) = some d2) :
+    out = todoDo d.cfg.htLookups d.cfg.env todo ∧ d2.cfg = d.cfg ∧ d2.flagread = true := by
+  simp only [accept, Option.some.injEq] at h1
+  subst h1
+  simp only [accept] at h2
   split at h2
-  · rename_i heq
+  · rename_i hq
     simp only [Option.some.injEq] at h2
     subst h2
-    refine ⟨rfl, rfl, heq.symm, ?_, ?_⟩ <;>
-    · simp only [reget]; split <;> rfl
+    exact ⟨hq.symm, rfl, rfl⟩
   · simp at h2
 
 /-- what the reread installs: the freshly parsed `locals` (default `me`) and `virtualdomains`
@@ -221,21 +319,20 @@ theorem C10_hup_reget (me : Option Bytes) (old : RawCfg) (f : Files) :
   · intro l hl; simp [reget, hl]
   · intro hl; simp [reget, hl]
 
-/-- Complement: without a HUP an edit of the control files changes nothing for later messages -/
-theorem C10_nohup (d d1 d2 : Daemon) (f : Files) (todo : Bytes) (out : Option TodoOut)
-    (hf : d.flagread = false) (h1 : accept d (.edit f) = some d1) (h2 : accept d1 (.msg todo out) = some d2) :
-    d2.cfg = d.cfg ∧ out = todoDo d.cfg.htLookups d.cfg.env todo := by
-  simp only [accept, Option.some.injEq] at h1
-  subst h1
-  simp only [accept] at h2
-  have htop : ({ d with files := f } : Daemon).top = { d with files := f } := by simp [Daemon.top, hf]
-  rw [htop] at h2
-  by_cases hq : todoDo d.cfg.htLookups d.cfg.env todo = out
-  · rw [if_pos hq] at h2
-    simp only [Option.some.injEq] at h2
-    subst h2
-    exact ⟨rfl, hq.symm⟩
-  · rw [if_neg hq] at h2; simp at h2
+/-- Complement: **without a SIGHUP nothing changes** — with no reread pending, along any SIGHUP-free
+trace (any edits of the control files, any number of loop rounds and messages) the configuration
+stays what it was and every message is preprocessed under it. -/
+theorem C10_nohup (d dn : Daemon) (es : List Ev) (hf : d.flagread = false)
+    (hno : es.all (fun e => !isHup e) = true) (h : acceptAll d es = some dn) :
+    dn.cfg = d.cfg ∧ ∀ todo out, Ev.msg todo out ∈ es → out = todoDo d.cfg.htLookups d.cfg.env todo := by
+  obtain ⟨a, _, b⟩ := acceptAll_stable es d dn hf hno h
+  exact ⟨a, b⟩
+
+/-- `me`, `envnoathost` and `percenthack` are never reread: along **any** trace (SIGHUPs included)
+they stay as read at start-up -/
+theorem C10_fixed (d dn : Daemon) (es : List Ev) (h : acceptAll d es = some dn) :
+    dn.me = d.me ∧ dn.cfg.env = d.cfg.env ∧ dn.cfg.ph = d.cfg.ph :=
+  acceptAll_fixed es d dn h
 
 /-! ### the control files -/
 
@@ -253,6 +350,59 @@ disk (default for locals: the `me` read at start-up), leaving the rest of the co
 theorem C10_hup_controls (f0 f : Files) (old : RawCfg) (h0 : ∀ s, f0.me = some s → NUL ∉ s) (h : nulFreeFiles f) :
     (reget (readline f0.me) old f).cfg = specHup old.cfg f0 f :=
   reget_eq_spec f0 f old h0 h
+
+/-- the daemon starts exactly when the documents say it does (NUL-free control directory) -/
+theorem C10_start (f0 : Files) (h : nulFreeB f0 = true) : (start f0).isSome = (specStart f0).isSome :=
+  start_iff_spec f0 h
+
+/-- **every trace of the daemon meets the documented behaviour, end to end** (control files → control.c
+readers → constmap hash tables → `rewrite()` → `todo_do`, under edits, SIGHUPs and rereads): for every
+start-up control directory `f0` and every trace `es` the monitor accepts from `start f0`, the
+documented predicate `specTrace` holds — i.e. every preprocessed message has exactly the outputs
+`specTodo` prescribes (`info` = the `F` records, `local`/`remote` = `routeSpec` of the `T` records
+in order, failure iff an unknown record) under the *documented* configuration: `specCfg f0` at
+start-up, replaced by `specHup` (locals and virtualdomains of the files then on disk, `me` default
+from start-up) each time a pending HUP is served at the loop top. `specTrace` judges while that
+configuration has no repeated virtualdomains key and stops judging once a control file containing a
+NUL byte has been read (the stated domain); it never mentions the model. This is literally the
+predicate `drv_c10` evaluates on the real daemon's observed trace (ORACLE kind=S). -/
+theorem C10_trace (f0 : Files) (d0 dn : Daemon) (es : List Ev)
+    (hs : start f0 = some d0) (h : acceptAll d0 es = some dn) :
+    specTrace f0 (specStart f0) es = true := by
+  cases hsp : specStart f0 with
+  | none => simp [specTrace]
+  | some s0 =>
+    exact sim_trace f0 (fun c hnd r => C10_spec c r hnd) es d0 dn s0 (sim_start f0 d0 s0 hs hsp) h
+
+/-- The same, spelled out for one HUP (what `C10_trace` gives for the trace `pre ++ [hup, top] ++ es`):
+after any accepted prefix from start-up, a HUP served at the loop top, and any SIGHUP-free
+continuation (including further edits of the control files), a well-formed message in the
+continuation gets `info` = its `F` records and channel files = `specChan` under `specHup` of the
+files that were on disk when the HUP was served. -/
+theorem C10_hup_e2e (f0 : Files) (d0 d d1 d2 dn : Daemon) (pre es : List Ev)
+    (hdr rs : List Bytes) (tail : Bytes) (out : Option TodoOut)
+    (hs : start f0 = some d0) (hpre : acceptAll d0 pre = some d)
+    (h0 : ∀ s, f0.me = some s → NUL ∉ s) (hf : nulFreeFiles d.files)
+    (hnd : noDupKeys (specHup d.cfg.cfg f0 d.files).vdoms = true)
+    (hh : ∀ r ∈ hdr, isHdr r = true ∧ NUL ∉ r) (hr : ∀ r ∈ rs, NUL ∉ r) (ht : NUL ∉ tail)
+    (h1 : accept d .hup = some d1) (h2 : accept d1 .top = some d2)
+    (hno : es.all (fun e => !isHup e) = true) (h3 : acceptAll d2 es = some dn)
+    (hm : Ev.msg (encode (hdr ++ rs.map (fun r => TEE :: r)) ++ tail) out ∈ es) :
+    out = some ⟨infoOf hdr, specChan (specHup d.cfg.cfg f0 d.files) .loc rs,
+                specChan (specHup d.cfg.cfg f0 d.files) .rem rs⟩ := by
+  have hme : d.me = readline f0.me := by
+    have := (acceptAll_fixed pre d0 d hpre).1
+    rw [this]
+    unfold start at hs
+    cases hg : getcontrols f0 with
+    | none => rw [hg] at hs; simp at hs
+    | some raw => rw [hg] at hs; simp only [Option.some.injEq] at hs; subst hs; rfl
+  obtain ⟨_, ho⟩ := C10_hup_later d d1 d2 dn es h1 h2 hno h3
+  have ho := ho _ out hm
+  have hsp : (reget d.me d.cfg d.files).cfg = specHup d.cfg.cfg f0 d.files := by
+    rw [hme]; exact C10_hup_controls f0 d.files d.cfg h0 hf
+  rw [ho, ht_eq, ← hsp, C10_specChan _ (hsp ▸ hnd), C10_specChan _ (hsp ▸ hnd)]
+  exact C10_partition (reget d.me d.cfg d.files).cfg hdr rs tail hh hr ht
 
 /-! ### non-vacuity (bytes: 64 '@', 37 '%', 46 '.', 58 ':', 45 '-', 0 NUL, 97.. 'a'..) -/
 
@@ -285,5 +435,30 @@ example : getcontrols ⟨some [109, 10], none, some [65, 32, 10, 35, 99, 10, 10,
            vdoms := [117, 64, 98, 58, 116, 0, 110, 111, 0, 58, 99, 0] } := by decide
 example : parseEntries [117, 64, 98, 58, 116, 0, 110, 111, 0, 58, 99, 0] true =
     [⟨[117, 64, 98], [116]⟩, ⟨[], [99]⟩] := by decide
+
+/-! #### HUP traces: start-up locals "a"; then locals "b" is written and a HUP served; then locals "c"
+is written **without** a HUP; then the message "Fs\0Tx@b\0Tx@c\0" -/
+def exF (l : Byte) : Files := ⟨some [109, 10], none, some [l, 10], none, none⟩
+def exTodo : Bytes := [70, 115, 0, 84, 120, 64, 98, 0, 84, 120, 64, 99, 0]
+def exTrace (out : TodoOut) : List Ev :=
+  [.edit (exF 98), .hup, .top, .edit (exF 99), .top, .msg exTodo (some out)]
+
+/-- the monitor accepts the outputs of the configuration read at the HUP (x@b local, x@c remote) … -/
+example : ((start (exF 97)).bind (fun d => acceptAll d (exTrace ⟨[70, 115, 0], [84, 120, 64, 98, 0], [84, 120, 64, 99, 0]⟩))).isSome = true := by
+  decide
+/-- … and rejects those of the files edited after the HUP (what a lazy reread would produce) … -/
+example : ((start (exF 97)).bind (fun d => acceptAll d (exTrace ⟨[70, 115, 0], [84, 120, 64, 99, 0], [84, 120, 64, 98, 0]⟩))).isSome = false := by
+  decide
+/-- … and the documented predicate says the same (it is not trivially true) -/
+example : specTrace (exF 97) (specStart (exF 97)) (exTrace ⟨[70, 115, 0], [84, 120, 64, 98, 0], [84, 120, 64, 99, 0]⟩) = true ∧
+    specTrace (exF 97) (specStart (exF 97)) (exTrace ⟨[70, 115, 0], [84, 120, 64, 99, 0], [84, 120, 64, 98, 0]⟩) = false ∧
+    specTrace (exF 97) (specStart (exF 97)) [.edit (exF 98), .msg exTodo (some ⟨[70, 115, 0], [84, 120, 64, 98, 0], [84, 120, 64, 99, 0]⟩)] = false := by
+  decide
+/-- a todo file with an unknown record type ("Tx@a\0Zq\0") or an empty record is not preprocessed;
+records may come in any order -/
+example : specTodo exCfg [84, 120, 64, 97, 0, 90, 113, 0] = none ∧ specTodo exCfg [84, 120, 64, 97, 0, 0] = none ∧
+    specTodo exCfg [84, 120, 64, 97, 0, 70, 115, 0, 84, 121, 64, 122, 0, 117, 49, 0] =
+      some ⟨[70, 115, 0], [84, 120, 64, 97, 0], [84, 121, 64, 122, 0]⟩ := by
+  decide
 
 end Nq.Props.C10
